@@ -416,9 +416,49 @@ _C06 = [
     M(["C06", "C05"], "tree-one-child-c06", AT, "query_overlap", "stack.extend([nodes[node_index, 1], nodes[node_index, 2]])", "stack.extend([nodes[node_index, 2]])", ["R-TRAVERSE"]),
 ]
 
-_ALL = _C06 + _C05 + _C07 + _C14 + _C15 + _C16 + _C19 + _C20 + _C01 + _C18 + _C09 + _C08 + _C03 + _C04 + _C12 + _C13 + _C16b
+PL = "distance3d/distance/_plane.py"
+TR = "distance3d/distance/_triangle.py"
+RE = "distance3d/distance/_rectangle.py"
+DK = "distance3d/distance/_disk.py"
+DI = "distance3d/distance/__init__.py"
+_C10 = [
+    M(["C10"], "nonneg-signed-default", PL, "point_to_plane", "return _point_to_plane(point, plane_point, plane_normal, signed)", "return _point_to_plane(point, plane_point, plane_normal, True)", ["R-NONNEG", "point_to_plane"]),
+    M(["C10"], "nonneg-plane-hull-signed", PL, "_plane_to_convex_hull_points", "return (abs(t), closest_point_plane, closest_point)", "return (t, closest_point_plane, closest_point)", ["R-NONNEG", "plane_to_"]),
+    M(["C10"], "nonneg-line-line", LI, "_line_to_line", "math.sqrt(abs(dist_squared))", "dist_squared", ["R-"]),
+    M(["C10"], "role-plane-forward-unswapped", PL, "_plane_to_convex_hull_points", "return (dist, closest_point_plane, closest_point)", "return (dist, closest_point, closest_point_plane)", ["R-ROLEAGREE"]),
+    M(["C10", "C12"], "role-triangle-second-loop", TR, "triangle_to_triangle", "best_closest_point_triangle1 = closest_point_triangle", "best_closest_point_triangle1 = closest_point_segment", ["R-ROLE", "triangle_to_triangle"], nth=0),
+    M(["C10", "C12"], "role-rect-rect-unswapped", RE, "rectangle_to_rectangle",
+      "dist, closest_point_rectangle2, closest_point_rectangle1 = line_segment_to_rectangle(segment_start, segment_end, rectangle_center1, rectangle_axes1, rectangle_lengths1)",
+      "dist, closest_point_rectangle1, closest_point_rectangle2 = line_segment_to_rectangle(segment_start, segment_end, rectangle_center1, rectangle_axes1, rectangle_lengths1)", ["R-ROLE", "rectangle_to_rectangle"]),
+    M(["C10", "C12"], "role-tri-rect-unswapped", TR, "triangle_to_rectangle",
+      "dist, closest_point_rectangle, closest_point_triangle = line_segment_to_triangle(segment_start, segment_end, triangle_points)",
+      "dist, closest_point_triangle, closest_point_rectangle = line_segment_to_triangle(segment_start, segment_end, triangle_points)", ["R-ROLE", "triangle_to_rectangle"]),
+    M(["C10", "C12"], "role-segment-box-return", BX, "line_segment_to_box", "return (distance, closest_point_segment, closest_point_box)", "return (distance, closest_point_box, closest_point_segment)", ["R-ROLE", "line_segment_to_box"]),
+    M(["C10", "C11"], "triple-best-of-partial", TR, "triangle_to_rectangle", "best_closest_point_rectangle = closest_point_rectangle", "", ["R-TRIPLE", "triangle_to_rectangle"], nth=0),
+    M(["C10", "C11"], "triple-endpoint-mixed", TR, "line_segment_to_triangle", "closest_point_segment = segment_end", "closest_point_segment = segment_start", ["R-TRIPLE", "line_segment_to_triangle"]),
+    M(["C10", "C11"], "triple-endpoint-no-point", BX, "line_segment_to_box", "closest_point_segment = segment_start", "", ["R-TRIPLE", "line_segment_to_box"]),
+    M(["C10", "C11"], "triple-distance-not-adopted", RE, "_line_to_rectangle", "best_dist = dist", "", ["R-TRIPLE", "_line_to_rectangle"]),
+    M(["C10"], "hang-while-no-increment", TR, "triangle_to_triangle", "i1 += 1", "i1 += 0", ["R-HANG", "triangle_to_triangle"], nth=1),
+    M(["C10"], "api-missing-export", DI, None, "from ._cylinder import point_to_cylinder", "point_to_cylinder = None", ["R-API", "point_to_cylinder"]),
+    M(["C10", "C20"], "eager-segment-view", DK, "disk_to_disk", "point_to_disk(center1, center2, radius2, normal2)", "point_to_disk(center1[::-1], center2, radius2, normal2)", ["R-EAGER", "disk_to_disk"]),
+]
 
-FLOORS = {"C05": 40, "C07": 14, "C14": 9, "C15": 8, "C16": 12, "C19": 14, "C20": 10, "C01": 24, "C18": 24, "C09": 24, "C08": 10, "C02": 20, "C03": 18, "C04": 12, "C12": 20, "C13": 10, "C06": 14}
+_C11 = [
+    M(["C11"], "features-triangle-start", TR, "_line_to_triangle", "i0 = 2", "i0 = 1", ["R-FEATURES", "_line_to_triangle"]),
+    M(["C11"], "features-triangle-bound", TR, "triangle_to_rectangle", "i1 < 3", "i1 < 2", ["R-"]),
+    M(["C11"], "features-triangle-no-wrap", TR, "triangle_to_triangle", "i0 = i1", "i0 = 2", ["R-FEATURES", "triangle_to_triangle"], nth=0),
+    M(["C11"], "features-rect-one-axis", RE, "_line_to_rectangle", "convert_rectangle_to_segment(rectangle_center, rectangle_extents, i0, i1)", "convert_rectangle_to_segment(rectangle_center, rectangle_extents, i0, i0)", ["R-FEATURES", "_line_to_rectangle"]),
+    M(["C11"], "features-rect-range1", RE, "rectangle_to_rectangle", "range(2)", "range(1)", ["R-FEATURES", "rectangle_to_rectangle"], nth=0),
+    M(["C11"], "features-box-one-sign", BX, "_rectangle_to_box_faces", "[-1, 1]", "[1]", ["R-FEATURES", "_rectangle_to_box_faces"]),
+    M(["C11"], "features-box-two-axes", BX, "_rectangle_to_box_faces", "range(3)", "range(2)", ["R-FEATURES", "_rectangle_to_box_faces"]),
+    M(["C11"], "features-early-break", RE, "rectangle_to_rectangle", "if dist <= epsilon:\n    break", "if dist <= best_dist:\n    break", ["R-FEATURES", "early exit"], nth=0),
+    M(["C11"], "features-vertices-partial", BX, "_rectangle_points_in_box", "range(len(rectangle_points))", "range(2)", ["R-FEATURES", "all rectangle vertices"]),
+    M(["C11"], "clamp-one-end", TR, "line_segment_to_triangle", "point_to_triangle(segment_end, triangle_points)", "point_to_triangle(segment_start, triangle_points)", ["R-"]),
+]
+
+_ALL = _C10 + _C11 + _C06 + _C05 + _C07 + _C14 + _C15 + _C16 + _C19 + _C20 + _C01 + _C18 + _C09 + _C08 + _C03 + _C04 + _C12 + _C13 + _C16b
+
+FLOORS = {"C05": 40, "C07": 14, "C14": 9, "C15": 8, "C16": 12, "C19": 14, "C20": 10, "C01": 24, "C18": 24, "C09": 24, "C08": 10, "C02": 20, "C03": 18, "C04": 12, "C12": 20, "C13": 10, "C06": 14, "C10": 12, "C11": 8}
 
 
 def all_mutants():
